@@ -80,9 +80,10 @@ def tree_jobs(tier):
 
 TREE_BOUNDS = {"records": "n <= 2 with digests [0-9a-z] and all hash-iteration orders of validate; n = 3 with digests in {a,b,r} (quick: one hash order; "
                           "thorough: all orders, [0-9a-z] digests)",
-               "shapes": "every record is a creation, an update / deletion / resolution marker of any earlier record, or the child of an unrecorded (dangling) parent",
+               "shapes": "every record is a creation, an update / deletion / resolution marker of any earlier record, an update whose index jumps by 9 (identifiers with indices >= 10, where numeric and "
+                         "textual order disagree), or the child of an unrecorded (dangling) parent of index 1 or 2",
                "orders": "every order of learning through add(); the opposite order through unvalidated_add()+validate(); one re-delivery"}
-TREE_ASSUME = ["revisions are built with the crate's own constructors (index = parent index + 1); one-character digests"]
+TREE_ASSUME = ["revisions are built with the crate's own constructors (index = parent index + 1, or + 9 for the compressed long history); one-character digests"]
 
 
 def c05(tier):
@@ -117,6 +118,8 @@ def c03(tier):
     jobs.append(Job("h_c12::maintenance", (10, 0), dict(S2), budget_s=3000, validate=20))
     # documents with id-only (empty) elements and anonymous sub-objects, committed and reopened (job shared with C04)
     jobs.append(Job("h_c04::update_read", (3, 0, 1, 1), dict(S2), budget_s=3000, validate=20))
+    # two staged objects sharing one payload, one of them removed again before the commit
+    jobs.append(Job("h_c03::shared_payload", (), dict(S2), budget_s=600, validate=8))
     return dict(jobs=jobs,
                 bounds={"objects per pack": "0..%d" % max(c[0] for c in combos), "symbolic string length": "0..%d" % max(c[1] for c in combos),
                         "string alphabet": "{ } [ ] , : \" \\ a (each byte symbolic); skeletons: flat object, symbolic key, nested object, array descriptor with non-ASCII literal, patch descriptor",
@@ -133,14 +136,14 @@ S2_ASSUME = ["single client thread; rayon par_iter bodies run sequentially in on
 
 
 def c04(tier):
-    combos = [(0, 4, 1, 0), (0, 4, 1, 1), (1, 0, 1, 1), (2, 0, 2, 0), (2, 0, 2, 1), (3, 0, 1, 0), (3, 0, 1, 1), (4, 0, 0, 0), (4, 0, 1, 1)]
+    combos = [(0, 4, 1, 0), (0, 4, 1, 1), (1, 0, 1, 1), (2, 0, 2, 0), (2, 0, 2, 1), (3, 0, 1, 0), (3, 0, 1, 1), (4, 0, 0, 0), (4, 0, 1, 1), (3, 0, 1, 2), (0, 4, 1, 2)]
     if tier != "quick":
         combos += [(0, 7, 1, 1), (0, 4, 2, 0), (1, 0, 2, 0), (1, 0, 1, 0), (0, 12, 1, 0)]
     jobs = [Job("h_c04::update_read", c, dict(S2), budget_s=3000, validate=30) for c in combos]
     jobs.append(Job("h_c12::update_in_conflict", (6 if tier == "quick" else 10,), dict(S2), budget_s=3000, validate=30))
     jobs.append(Job("h_c04::resubmit_in_conflict", (), dict(S2), budget_s=3000, validate=10))
     return dict(jobs=jobs,
-                bounds={"combos [variant, element orders, prior documents, commit after each prior document]": [list(c) for c in combos],
+                bounds={"combos [variant, element orders, prior documents, 1 = commit after each prior document / 2 = discard the uncommitted prior documents with unstage]": [list(c) for c in combos],
                         "variant 0": "element order of items♭ x membership of a second flattened array (objects move between arrays)",
                         "variant 1": "flattened object / '^'-prefixed string meta♭ and flattened string s♭ (symbolic printable char) appear, disappear, change kind",
                         "variant 2": "flattened key more♭ changes kind: absent / array / empty array / number / string / object",
@@ -182,6 +185,8 @@ def c11(tier):
     # the order in which commit collects change records from hash tables may be reversed at one point per path
     jobs.append(Job("h_c11::content_addressed", (3, 0), dict(S2, digest_len=64, hash_order="two", nd_budget=1), budget_s=3000, validate=20, native_repeats=3))
     jobs.append(Job("h_pack::pack_roundtrip", (1, 1), {"hash_order": "two"}, budget_s=3000, validate=20))
+    # a block holding an update record whose digest equals its parent's (identical consecutive edit scripts), melded and relayed
+    jobs.append(Job("h_c11::identical_scripts_meld", (), dict(S2, digest_len=64), budget_s=600, validate=2))
     return dict(jobs=jobs, bounds={"history": "a: commit (metadata with non-ASCII text, a symbolic printable char, nested containers, escapes, empty object, 13-digit integer), commit with empty-object metadata; "
                                               "b melds + refreshes, commits, a melds back; then unstage / refresh / reload / reads",
                                    "checked after every step on both storages": "every key = digest(bytes) (+ index = 1 + max parent index for blocks); key set only grows; bytes of existing keys unchanged; "
